@@ -84,6 +84,67 @@ Fixpoint run_ops (univ : list tx) (w : world) (ops : list iop) : cres :=
 Definition run_case (c0 : list N) (univ : list tx) (ops : list iop) : cres :=
   run_ops univ (init_world c0) ops.
 
+(* ---- concurrent rounds ------------------------------------------------------
+   The harness also submits several transactions from goroutines of their own, with
+   the pool's store lookups stalled and released in a chosen order.  Every entry
+   point of TxPool holds tp.mtx for its whole body, so a round is some sequential
+   order of its submissions: the harness reads that order off the order in which
+   the submissions' own store lookups began (they begin under the write lock) and
+   passes it here.  A round yields one result entry per submission (its isOrphan
+   flag), each with the dump of the maps after the whole round (the only state the
+   harness can observe).  Submission j of a round reads the clock at now_j. *)
+Inductive cop :=
+| CSeq (o : iop)
+| CRound (subs : list (N * N)).    (* (now, index into the universe), linearisation order *)
+
+Fixpoint round_steps (univ : list tx) (w : world) (subs : list (N * N)) : option (world * list bool) :=
+  match subs with
+  | [] => Some (w, [])
+  | (now, i) :: subs' =>
+    match nth_error univ (N.to_nat i) with
+    | None => None
+    | Some t =>
+      match step idP idE w (OSubmit now t) with
+      | None => None
+      | Some (w', f) =>
+        match round_steps univ w' subs' with
+        | None => None
+        | Some (w'', fs) => Some (w'', f :: fs)
+        end
+      end
+    end
+  end.
+
+Fixpoint run_cops (univ : list tx) (w : world) (ops : list cop) : cres :=
+  match ops with
+  | [] => Some []
+  | CSeq o :: ops' =>
+    match resolve univ o with
+    | None => None
+    | Some os =>
+      match steps w false os with
+      | None => None
+      | Some (w', r) =>
+        match run_cops univ w' ops' with
+        | None => None
+        | Some rs => Some ((r, dump_state (wst w')) :: rs)
+        end
+      end
+    end
+  | CRound subs :: ops' =>
+    match round_steps univ w subs with
+    | None => None
+    | Some (w', fs) =>
+      match run_cops univ w' ops' with
+      | None => None
+      | Some rs => Some (map (fun f => (f, dump_state (wst w'))) fs ++ rs)
+      end
+    end
+  end.
+
+Definition run_case_conc (c0 : list N) (univ : list tx) (ops : list cop) : cres :=
+  run_cops univ (init_world c0) ops.
+
 Definition dump_eqb : dump -> dump -> bool :=
   pair_eqb (pair_eqb (pair_eqb (list_eqb N.eqb) (list_eqb N.eqb))
                      (list_eqb N.eqb))
